@@ -333,9 +333,10 @@ def build_glob(reg, specs, qs, SELF, fields):
 
     # ------------------------------------------------------------------ glob = __start with the wildcard matcher, then __glob
     # ------------------------------------------------------------------ the recursive descent __glob / __find
-    # Relaxed mode (relax=True) is proved: the result is the denotation GL of the statement and nothing is raised.
-    # Strict mode: the result value / the raising condition are left to the bounded stand-in (GLOBRES uninterpreted, exceptions
-    # possible), only "exceptions occur in strict mode only" is proved.
+    # Both modes: a returned list is the denotation GL of the statement.  Relaxed mode raises nothing.  Strict mode (sibling-unique
+    # names, the property's scope) raises only at a raise statement that is under its dead-end condition, and whenever an error
+    # leaves __glob/__find the denotation of the remaining components is empty - which is what makes swallowing the error in an
+    # enclosing wildcard / '**' alternative harmless (the defect D11 was a '**' alternative that let a RootResolverError through).
     from pyvc.seqworld import FALSEF, TRUEF
     from contracts import iterators as IT
     IT_reg, _ = IT.build()
@@ -388,20 +389,51 @@ def build_glob(reg, specs, qs, SELF, fields):
                                       If(name == S("**"), GLS(s_, Length(s_), rem), GLK(k_, Length(k_), name, rem)))))]
     reg.glob_defs = (d_GL, d_GLS, d_GLK, d_DD, tail, sub_of)
 
-    def gl_outcomes(valuefn):
+    # Strict mode (relax=False) is in the property's scope for sibling-unique names only.  UNIQ_ALL stands for: no two children of
+    # any node match the same wildcard-free pattern under this resolver's own matcher; it is an opaque constant that is *revealed*
+    # (instantiated) for one node and one pattern where needed, so no quantifier over strings reaches the solver.
+    UNIQ_ALL = Const("UNIQ_ALL", B)
+
+    def wild(pat):
+        return Or(Contains(pat, S("?")), Contains(pat, S("*")))
+
+    def reveal_uniq(n, pat):
+        k_ = CH(n)
+        i_, j_ = Int("ui"), Int("uj")
+        return Implies(And(UNIQ_ALL, Not(wild(pat))),
+                       ForAll([i_, j_], Implies(And(0 <= i_, i_ < j_, j_ < Length(k_)), Not(And(wmn(k_[i_], pat), wmn(k_[j_], pat))))))
+
+    def uniq_req():
+        return Clause("strict-mode: names are unique among siblings (under the resolver's matcher)", Implies(Not(F.relax), UNIQ_ALL))
+
+    def no_match(kids, m, k, pat):
+        j_ = Int("nj")
+        return ForAll([j_], Implies(And(m <= j_, j_ < k), Not(wmn(kids[j_], pat))))
+
+    def glk_skip(kids, m, k, pat, rem):
+        """children that do not match contribute nothing (lemma, proved by induction on k in SMT)"""
+        return Implies(And(0 <= m, m <= k, k <= Length(kids), no_match(kids, m, k, pat)), GLK(kids, k, pat, rem) == GLK(kids, m, pat, rem))
+    reg.glob_lemmas = lambda: _glob_lemmas(glk_skip, d_GLK)
+    dead_end = lambda value: lambda c, S1, r: [Clause("strict-only", Not(F.relax), P8),
+                                              Clause("then-the-components-denote-nothing", Length(value(c)) == 0, P8)]
+
+    def gl_outcomes(valuefn, here=()):
+        """both modes: a returned list is the denotation; strict mode may instead raise, and then the denotation is empty (so an
+        enclosing wildcard or '**' alternative that swallows the error loses nothing).  `here`: the raise statements of the function
+        itself with the dead-end condition each one is under."""
         return [
-            Outcome("relaxed", "return", lambda c, S1, r: [Clause("is-the-denotation-of-the-remaining-components", r.t == valuefn(c), P8)],
-                    res="qseq", mods=(), when=lambda c: F.relax),
-            Outcome("strict", "return", lambda c, S1, r: [], res="qseq", mods=(), when=lambda c: Not(F.relax)),
-            Outcome("ResolverError", "raise", lambda c, S1, r: [Clause("strict-only", Not(F.relax), P8)], exc="ResolverError", mods=(), user=True),
-            Outcome("ChildResolverError", "raise", lambda c, S1, r: [Clause("strict-only", Not(F.relax), P8)], exc="ChildResolverError", mods=(), user=True),
-            Outcome("RootResolverError", "raise", lambda c, S1, r: [Clause("strict-only", Not(F.relax), P8)], exc="RootResolverError", mods=(), user=True),
+            Outcome("return", "return", lambda c, S1, r: [Clause("is-the-denotation-of-the-remaining-components", r.t == valuefn(c), P8)],
+                    res="qseq", mods=()),
+        ] + list(here) + [
+            Outcome("ResolverError:from-below", "raise", dead_end(valuefn), exc="ResolverError", mods=(), user=True, site="call:*"),
+            Outcome("ChildResolverError:from-below", "raise", dead_end(valuefn), exc="ChildResolverError", mods=(), user=True, site="call:*"),
+            Outcome("RootResolverError:from-below", "raise", dead_end(valuefn), exc="RootResolverError", mods=(), user=True, site="call:*"),
         ]
 
     def glob_inv_outer(L):
         c = L.fn
         rem = tail(c.parts)
-        return [("collected-so-far", Implies(F.relax, L.t("matches") == GLS(sub_of(c.node), L.i, rem)))]
+        return [("collected-so-far", L.t("matches") == GLS(sub_of(c.node), L.i, rem))]
 
     def glob_hints_outer(L):
         c = L.fn
@@ -417,7 +449,7 @@ def build_glob(reg, specs, qs, SELF, fields):
         sub = L.t("subnode")
         g = GL(sub, rem)
         acc0 = L.pre_v["matches"].t
-        return [("de-duplicated-so-far", Implies(F.relax, L.t("matches") == DD(acc0, g, L.i)))]
+        return [("de-duplicated-so-far", L.t("matches") == DD(acc0, g, L.i))]
 
     def glob_hints_inner(L):
         c = L.fn
@@ -425,8 +457,20 @@ def build_glob(reg, specs, qs, SELF, fields):
         sub = L.t("subnode")
         g = GL(sub, rem)
         return d_DD(L.pre_v["matches"].t, g, L.i)
+    def glob_here():
+        v = lambda c: GL(c.node, c.parts)
+        return [
+            Outcome("RootResolverError:here", "raise", lambda c, S1, r: dead_end(v)(c, S1, r) + [
+                Clause("dead-end: a '..' step at the root", And(Length(c.parts) > 0, c.parts[0] == S(".."), PAR(c.node) == NONE), P8)],
+                exc="RootResolverError", mods=(), site="explicit*"),
+            Outcome("ChildResolverError:here", "raise", lambda c, S1, r: dead_end(v)(c, S1, r) + [
+                Clause("dead-end: a literal component that no child matches",
+                       And(Length(c.parts) > 0, Not(wild(c.parts[0])), c.parts[0] != S(".."), c.parts[0] != S(""), c.parts[0] != S("."),
+                           no_match(CH(c.node), 0, Length(CH(c.node)), c.parts[0])), P8)],
+                exc="ChildResolverError", mods=(), site="explicit*"),
+        ]
     gl = qs(QSpec(reg, REL, "Resolver", "__glob", "method", [SELF, ("node", "ref"), ("parts", "strlist")],
-                  lambda c: [Clause("node-is-not-None", c.node != NONE)], gl_outcomes(lambda c: GL(c.node, c.parts)),
+                  lambda c: [Clause("node-is-not-None", c.node != NONE), uniq_req()], gl_outcomes(lambda c: GL(c.node, c.parts), glob_here()),
                   loops={0: LoopSpec(glob_inv_outer, hints=glob_hints_outer, vars_kinds={"matches": "qseq"}),
                          1: LoopSpec(glob_inv_inner, hints=glob_hints_inner, vars_kinds={"matches": "qseq"})},
                   props=P8, hints=lambda c: d_GL(c.node, c.parts) + d_GLS(sub_of(c.node), IntVal(0), tail(c.parts))[:1] + MATCH_AX))
@@ -434,15 +478,19 @@ def build_glob(reg, specs, qs, SELF, fields):
 
     def find_inv(L):
         c = L.fn
-        return [("matches-so-far", Implies(F.relax, L.t("matches") == GLK(CH(c.node), L.i, c.pat, c.remainder)))]
+        return [("matches-so-far", L.t("matches") == GLK(CH(c.node), L.i, c.pat, c.remainder))]
 
     def find_hints(L):
         c = L.fn
         k_ = CH(c.node)
+        n_ = Length(k_)
         return d_GLK(k_, L.i, c.pat, c.remainder) + [Implies(Length(c.remainder) == 0, GL(k_[L.i], c.remainder) == __import__("z3").Unit(k_[L.i])),
-                                                     k_[L.i] != NONE] + d_GL(k_[L.i], c.remainder)
+                                                     k_[L.i] != NONE] + d_GL(k_[L.i], c.remainder) + [
+            # re-raise of a literal component: the one matching child denotes nothing, the others do not match (UNIQ) and add nothing
+            reveal_uniq(c.node, c.pat), glk_skip(k_, IntVal(0), L.i, c.pat, c.remainder), glk_skip(k_, L.i + 1, n_, c.pat, c.remainder),
+            GLK(k_, 0, c.pat, c.remainder) == Empty(SeqR)]
     fd = qs(QSpec(reg, REL, "Resolver", "__find", "method", [SELF, ("node", "ref"), ("pat", "str"), ("remainder", "strlist")],
-                  lambda c: [Clause("node-is-not-None", c.node != NONE)],
+                  lambda c: [Clause("node-is-not-None", c.node != NONE), uniq_req()],
                   gl_outcomes(lambda c: GLK(CH(c.node), Length(CH(c.node)), c.pat, c.remainder)),
                   loops={0: LoopSpec(find_inv, hints=find_hints, vars_kinds={"matches": "qseq"})}, props=P8,
                   hints=lambda c: d_GLK(CH(c.node), IntVal(0), c.pat, c.remainder)[:1] + MATCH_AX))
@@ -457,17 +505,27 @@ def build_glob(reg, specs, qs, SELF, fields):
         unknown = And(ab, Not(missing), Not(wm(nameof(ROOT(c.node)), ps[1], F.ignorecase)))
         return n0, p0, Or(missing, unknown)
     sp = qs(QSpec(reg, REL, "Resolver", "glob", "method", [SELF, ("node", "ref"), ("path", "str")],
-                  lambda c: [Clause("node-is-not-None", c.node != NONE), Clause("separator-non-empty", Length(SEP(c.node)) > 0)], [
-        Outcome("result", "return", lambda c, S1, r: [Clause("relaxed: the denotation of the remaining components from the start node",
-                                                                Implies(F.relax, r.t == GL(gstart(c)[0], gstart(c)[1])))], res="qseq", mods=(),
+                  lambda c: [Clause("node-is-not-None", c.node != NONE), Clause("separator-non-empty", Length(SEP(c.node)) > 0), uniq_req()], [
+        Outcome("result", "return", lambda c, S1, r: [Clause("the denotation of the remaining components from the start node (both modes)",
+                                                                r.t == GL(gstart(c)[0], gstart(c)[1]))], res="qseq", mods=(),
                 when=lambda c: Not(gstart(c)[2])),
         Outcome("empty:relax", "return", lambda c, S1, r: [Clause("is-empty", Length(r.t) == 0)], res="qseq", mods=(),
                 when=lambda c: And(gstart(c)[2], F.relax)),
         Outcome("ResolverError:root-component", "raise", lambda c, S1, r: [], exc="ResolverError", mods=(),
                 when=lambda c: And(gstart(c)[2], Not(F.relax)), site="explicit*"),
-        Outcome("ResolverError:from-matching", "raise", lambda c, S1, r: [Clause("strict-only", Not(F.relax))], exc="ResolverError", mods=(), user=True,
+        Outcome("ResolverError:from-matching", "raise", dead_end(lambda c: GL(gstart(c)[0], gstart(c)[1])), exc="ResolverError", mods=(), user=True,
                 site="call:*"),
-        Outcome("ChildResolverError", "raise", lambda c, S1, r: [Clause("strict-only", Not(F.relax))], exc="ChildResolverError", mods=(), user=True),
-        Outcome("RootResolverError", "raise", lambda c, S1, r: [Clause("strict-only", Not(F.relax))], exc="RootResolverError", mods=(), user=True),
+        Outcome("ChildResolverError", "raise", dead_end(lambda c: GL(gstart(c)[0], gstart(c)[1])), exc="ChildResolverError", mods=(), user=True),
+        Outcome("RootResolverError", "raise", dead_end(lambda c: GL(gstart(c)[0], gstart(c)[1])), exc="RootResolverError", mods=(), user=True),
     ], props=P8, hints=lambda c: MATCH_AX + [ROOT(c.node) != NONE, PAR(ROOT(c.node)) == NONE]))
     reg.methods[("Resolver", "glob")] = sp
+
+
+def _glob_lemmas(glk_skip, d_GLK):
+    kids = Const("lgk", SeqR)
+    m, k = Int("lgm"), Int("lgk2")
+    pat = Const("lgpat", Str)
+    rem = Const("lgrem", SeqStr)
+    return [("LEMMA:non-matching-children-add-nothing/base", [], glk_skip(kids, m, m, pat, rem)),
+            ("LEMMA:non-matching-children-add-nothing/step", d_GLK(kids, k, pat, rem) + [glk_skip(kids, m, k, pat, rem), m <= k, k < Length(kids)],
+             glk_skip(kids, m, k + 1, pat, rem))]
